@@ -195,6 +195,12 @@ impl<'b, T: Shape + ?Sized, L: LenShape> Kont<T> for PushK<'b, T, L> {
     }
 }
 
+pub struct ProbeK;
+impl<T: Shape + ?Sized> Kont<T> for ProbeK {
+    type Out = ();
+    fn call<E: Emplacer<T>>(self, _e: E) -> Self::Out {}
+}
+
 pub fn assign_op<T: Shape + ?Sized>(this: &mut T, op: &Op) -> OpOut {
     match op {
         Op::Assign(v, style) => match T::with_emp(v, *style, AssignK(this)) {
@@ -625,6 +631,12 @@ impl<T: SizedShape, L: LenShape> Shape for FlatVec<T, L> {
         Desc::Vec { elem: Box::new(T::desc()), len: L::lend() }
     }
     fn read(&self) -> Value {
+        if core::mem::size_of::<T>() == 0 && self.len() > crate::model::ZST_READ_CAP {
+            // zero-sized elements: first elements plus the count (same convention as the model)
+            let mut v: Vec<Value> = self.as_slice().iter().take(crate::model::ZST_READ_CAP).map(|x| x.read()).collect();
+            v.push(Value::U(self.len() as u128));
+            return Value::Seq(v);
+        }
         Value::Seq(self.as_slice().iter().map(|x| x.read()).collect())
     }
     fn with_emp<K: Kont<Self>>(v: &Value, style: u64, k: K) -> K::Out {
@@ -875,6 +887,7 @@ pub struct VT {
     pub static_size: Option<usize>,
     pub consts: Vec<(&'static str, usize)>,
     pub is_msg: bool,
+    pub default_probe: bool,
     pub validate: fn(&[u8]) -> Result<(), Error>,
     pub from_bytes: fn(&[u8], ViewFn) -> Result<(), Error>,
     pub from_mut_bytes: fn(&mut [u8], ViewMutFn) -> Result<(), Error>,
@@ -980,6 +993,7 @@ pub fn vt<T: Shape + ?Sized>(name: &'static str, static_size: Option<usize>) -> 
         static_size,
         consts: T::consts(),
         is_msg: false,
+        default_probe: T::default_emp(ProbeK).is_some(),
         validate: vt_validate::<T>,
         from_bytes: vt_from_bytes::<T>,
         from_mut_bytes: vt_from_mut_bytes::<T>,
